@@ -36,7 +36,7 @@ def make_species(I, idx, name_w, notes, elements, temps_w, phase_w=1):
         sym = Z + '%s.el%d' % (tag, k)
         I.sym_strings[sym] = (sw, 'alpha')
         cnt = D.sym('%s.n%d' % (tag, k))
-        I.order.ranks['%s.n%d' % (tag, k)] = 5 if digits else 0
+        I.order.ranks['%s.n%d' % (tag, k)] = 5 * 10 ** (digits - 1) if digits else 0   # a witness with that many digits
         if digits:
             I.num_widths[repr(cnt)] = digits
         el.d[sym] = cnt
